@@ -154,7 +154,10 @@ Definition cmd_start (cf : config) (s : state) (l : tlocal) (c : cmd)
       end
   | CMove h h2 =>
       inl (mkState (sh s) (thr s) (upd (upd (hnd s) h HEmpty) h2 (hnd s h)), l, [], RUnit)
-  | CSetGen g =>
+  | CSetGen g0 =>
+      (* the verification hook is only ever called with a multiple of four below 2^64 (the
+         counter advances in steps of four); other arguments are normalised *)
+      let g := (g0 - g0 mod 4) mod WORD in
       match tl_node l with
       | None => inl (s, l, [GHead; WGetSetGen g; KDone None], RUnit)
       | Some _ => inl (s, tl_set_gen l g, [], RUnit)
